@@ -210,3 +210,119 @@ Example import_example :
   | _ => False
   end.
 Proof. vm_compute. reflexivity. Qed.
+
+(* ------------------------------------------------------------------ C19: prefixes *)
+Definition ibind {A B} (r : ires A) (f : A -> ires B) : ires B :=
+  match r with IOk a => f a | IErr e => IErr e | IOut => IOut end.
+
+(* importing r1 ++ r2 is importing r2 from the state reached after r1 *)
+Theorem run_rows_app bad : forall r1 r2 s,
+  run_rows bad s (r1 ++ r2) = ibind (run_rows bad s r1) (fun s' => run_rows bad s' r2).
+Proof.
+  induction r1 as [|r r1 IH]; intros r2 s; simpl; [reflexivity|].
+  destruct (step_row bad s r); simpl; [apply IH | reflexivity | reflexivity].
+Qed.
+
+(* the measure index is only ever extended at its end *)
+Lemma mst_set_nodes d ns : d_mst (set_nodes d ns) = d_mst d. Proof. reflexivity. Qed.
+
+Lemma add_node_mst d st p t lo sg h d' id : add_node d st p t lo sg h = IOk (d', id) -> d_mst d' = d_mst d.
+Proof.
+  unfold add_node. destruct (Nat.ltb (List.length (d_stages d)) st); [discriminate|].
+  intros H. injection H as <- <-. reflexivity.
+Qed.
+
+Lemma step_cell_mst bad row s icol col s' b : step_cell bad row s icol col = IOk (s', b) -> d_mst (i_doc s') = d_mst (i_doc s).
+Proof.
+  unfold step_cell. destruct (startswith "**" col).
+  - destruct (add_node _ _ _ _ _ _ _) as [[d1 id]| |] eqn:Ha; try discriminate.
+    intros H. injection H as <- <-. simpl. now rewrite (add_node_mst _ _ _ _ _ _ _ _ _ Ha).
+  - destruct (mem_str col spine_operations).
+    + destruct (i_prev s) as [prev|]; [|discriminate].
+      destruct (Nat.leb _ icol); [discriminate|].
+      destruct (add_node _ _ _ _ _ _ _) as [[d1 id]| |] eqn:Ha; try discriminate.
+      pose proof (add_node_mst _ _ _ _ _ _ _ _ _ Ha) as H1.
+      destruct (String.eqb col "*-").
+      { intros H. injection H as <- <-. simpl. destruct (n_lastop _); exact H1. }
+      destruct (String.eqb col "*+" || String.eqb col "*^").
+      { intros H. injection H as <- <-. exact H1. }
+      destruct (String.eqb col "*v"); [|discriminate].
+      intros H. injection H as <- <-.
+      destruct (match icol with O => true | S _ => _ end); simpl; destruct (n_lastop _); exact H1.
+    + match goal with |- context [match ?X with IOk _ => _ | IErr _ => _ | IOut => _ end = _] => destruct X as [[tok is_err]| |] end;
+        try discriminate.
+      destruct (i_prev s) as [prev|]; [|discriminate].
+      destruct (Nat.leb _ icol); [discriminate|].
+      destruct (add_node _ _ _ _ _ _ _) as [[d1 id]| |] eqn:Ha; try discriminate.
+      pose proof (add_node_mst _ _ _ _ _ _ _ _ _ Ha) as H1.
+      intros H. injection H as <- <-. simpl.
+      assert (H2 : d_mst (if is_err then add_error d1 id else d1) = d_mst (i_doc s)) by (destruct is_err; exact H1).
+      destruct (cat_beq _ BARLINES || _); [exact H2|].
+      destruct (String.eqb _ "BoundingBoxToken"); [exact H2|].
+      destruct (is_signature_token tok); exact H2.
+Qed.
+
+Lemma step_cells_mst bad row : forall cols s icol bar s' b,
+  step_cells bad row s icol cols bar = IOk (s', b) -> d_mst (i_doc s') = d_mst (i_doc s).
+Proof.
+  induction cols as [|c cols IH]; intros s icol bar s' b; simpl.
+  - intros H. injection H as <- <-. reflexivity.
+  - destruct (step_cell bad row s icol c) as [[s1 b1]| |] eqn:Hc; try discriminate.
+    intros H. rewrite (IH _ _ _ _ _ H). eapply step_cell_mst; exact Hc.
+Qed.
+
+Lemma step_row_mst bad s row s' : step_row bad s row = IOk s' ->
+  d_mst (i_doc s') = d_mst (i_doc s) \/ d_mst (i_doc s') = d_mst (i_doc s) ++ [S (i_stage s)].
+Proof.
+  unfold step_row. destruct row as [|first rest].
+  - intros H. injection H as <-. now left.
+  - destruct (startswith "!!" first).
+    + destruct (add_node _ _ _ _ _ _ _) as [[d1 id]| |] eqn:Ha; try discriminate.
+      intros H. injection H as <-. left. cbn [i_doc]. exact (add_node_mst _ _ _ _ _ _ _ _ _ Ha).
+    + match goal with |- context [step_cells bad ?r ?s0 0 ?r false] =>
+        remember s0 as st0 eqn:Est0; destruct (step_cells bad r st0 0 r false) as [[s1 bar]| |] eqn:Hc end;
+        try discriminate.
+      pose proof (step_cells_mst _ _ _ _ _ _ _ _ Hc) as H1.
+      assert (E0 : d_mst (i_doc st0) = d_mst (i_doc s)) by (subst st0; reflexivity).
+      assert (Es : i_stage s1 = i_stage st0).
+      { clear -Hc. revert Hc. generalize 0 at 1. generalize false. generalize (first :: rest) at 2.
+        intros cols. revert st0. induction cols as [|c cols IH]; intros st0 bar0 n Hc; simpl in Hc.
+        - injection Hc as <- _. reflexivity.
+        - destruct (step_cell bad (first :: rest) st0 n c) as [[s2 b2]| |] eqn:H2; try discriminate.
+          rewrite (IH _ _ _ Hc). clear -H2. unfold step_cell in H2.
+          destruct (startswith "**" c).
+          + destruct (add_node _ _ _ _ _ _ _) as [[d1 id]| |]; try discriminate. injection H2 as <- _. reflexivity.
+          + destruct (mem_str c spine_operations).
+            * destruct (i_prev st0); [|discriminate]. destruct (Nat.leb _ n); [discriminate|].
+              destruct (add_node _ _ _ _ _ _ _) as [[d1 id]| |]; try discriminate.
+              destruct (String.eqb c "*-"); [injection H2 as <- _; reflexivity|].
+              destruct (String.eqb c "*+" || String.eqb c "*^"); [injection H2 as <- _; reflexivity|].
+              destruct (String.eqb c "*v"); [|discriminate]. injection H2 as <- _.
+              destruct (match n with O => true | S _ => _ end); reflexivity.
+            * match goal with H : context [match ?X with IOk _ => _ | IErr _ => _ | IOut => _ end] |- _ => destruct X as [[tok is_err]| |] end;
+                try discriminate.
+              destruct (i_prev st0); [|discriminate]. destruct (Nat.leb _ n); [discriminate|].
+              destruct (add_node _ _ _ _ _ _ _) as [[d1 id]| |]; try discriminate. injection H2 as <- _. reflexivity. }
+      intros H. injection H as <-. cbn [i_doc]. destruct bar.
+      * right. unfold push_mst. cbn [d_mst]. rewrite H1, E0. subst st0. reflexivity.
+      * left. rewrite H1. exact E0.
+Qed.
+
+Theorem run_rows_mst_prefix bad : forall rows s s', run_rows bad s rows = IOk s' ->
+  exists ext, d_mst (i_doc s') = d_mst (i_doc s) ++ ext.
+Proof.
+  induction rows as [|r rows IH]; intros s s'; simpl.
+  - intros H. injection H as <-. exists []. now rewrite app_nil_r.
+  - destruct (step_row bad s r) as [s1| |] eqn:Hr; try discriminate.
+    intros H. destruct (IH _ _ H) as [ext He]. destruct (step_row_mst _ _ _ _ Hr) as [H1|H1].
+    + exists ext. now rewrite He, H1.
+    + exists ([S (i_stage s)] ++ ext). now rewrite He, H1, <- app_assoc.
+Qed.
+
+(* the measure index of a prefix of the rows is a prefix of the measure index of all the rows *)
+Theorem prefix_measures bad r1 r2 s1 s :
+  run_rows bad init_state r1 = IOk s1 -> run_rows bad init_state (r1 ++ r2) = IOk s ->
+  exists ext, d_mst (i_doc s) = d_mst (i_doc s1) ++ ext.
+Proof.
+  intros H1 H. rewrite run_rows_app, H1 in H. simpl in H. eapply run_rows_mst_prefix; exact H.
+Qed.
